@@ -58,7 +58,7 @@ Ltac solve_wf := repeat match goal with
   | |- parity_ok _ => unfold parity_ok
   | |- split_ok _ => unfold split_ok
   | |- info_ok _ _ => unfold info_ok
-  | |- sorted_from _ _ => cbn [sorted_from fst]
+  | |- sorted_from _ _ => progress cbn [sorted_from fst cd_deleted]
   | |- _ /\ _ => split
   | |- True => exact I
   | |- Forall _ [] => constructor
@@ -66,7 +66,8 @@ Ltac solve_wf := repeat match goal with
   | |- str_ok _ _ => str
   | |- _ -> _ => intros; discriminate
   | |- _ <> _ => discriminate
-  | |- _ => first [ vm_compute; reflexivity | vm_compute; discriminate | cbn; lia ]
+  | |- Forall _ _ => progress cbn [cd_files cd_links cd_dirs cd_deleted cf_blocks c_disks c_maps c_parity c_info cp_splits ex_state]
+  | |- _ => first [ vm_compute; reflexivity | vm_compute; discriminate ]
   end.
 
 Lemma ex_wf : wf ex_state.
@@ -114,4 +115,86 @@ Proof. vm_compute. reflexivity. Qed.
 Example ex_rewrite_fixpoint :
   let b := encode (T0 + 3) (normalise (T0 + 3) ex_state) in
   match decode (conf_of ex_state) b with Ok s' => encode (T0 + 3) s' = b | _ => False end.
+Proof. vm_compute. reflexivity. Qed.
+
+(* ------------------------------------------------------------------------------------------------ *)
+(** * Rewriting *)
+
+(* the configuration is not changed by a save + load *)
+Lemma norm_disks_names bm : forall (L : list cdisk) (I : list (option N)), length I = length L ->
+  map cd_name (norm_disks bm L I) = map cd_name L.
+Proof.
+  induction L as [|x L IH]; intros [|oi I] H; try discriminate; [reflexivity|]. cbn [norm_disks map].
+  rewrite IH by (cbn in H; lia). destruct oi; reflexivity.
+Qed.
+
+Lemma conf_of_normalise now s : conf_of (normalise now s) = conf_of s.
+Proof.
+  unfold conf_of, normalise. cbn [c_block_size c_hash_size c_disks c_parity].
+  change (c_block_size (p_st (prepare s))) with (c_block_size s). change (c_hash_size (p_st (prepare s))) with (c_hash_size s).
+  f_equal.
+  - rewrite <- !(map_map cd_name (fun n => (n, @nil N))). f_equal.
+    change (c_disks (p_st (prepare s))) with (pdisks s). rewrite norm_disks_names.
+    + unfold pdisks. rewrite map_map. reflexivity.
+    + rewrite p_idx_eq, assign_length. apply map_length.
+  - change (c_parity (p_st (prepare s))) with (c_parity s). rewrite map_map. apply map_ext. intros p.
+    unfold norm_parity. destruct (version (p_st (prepare s)) =? 3); [reflexivity|]. cbn [cp_splits]. rewrite map_map. reflexivity.
+Qed.
+
+(* Rewriting (load + save at the same clock) a content file that was itself produced by a load + save is the identity
+   on the bytes -- GIVEN that normalise is idempotent on the state and keeps it well-formed.  These two facts are
+   checked by computation on ex_state below and by the harness on every generated state; they are not proved in
+   general (the missing part: prepare (normalise now s) against prepare s, i.e. the oldest-time fold and the
+   mapping indexes after the clean-up). *)
+Theorem rewrite_fixpoint_partial now s :
+  wf s -> 8 <= now ->
+  wf (normalise now s) -> normalise now (normalise now s) = normalise now s ->
+  decode (conf_of s) (encode now (normalise now s)) = Ok (normalise now s)
+  /\ forall s', decode (conf_of s) (encode now (normalise now s)) = Ok s' -> encode now s' = encode now (normalise now s).
+Proof.
+  intros W Hnow W1 Hid.
+  pose proof (decode_encode_rt now (normalise now s) W1 Hnow) as H. rewrite conf_of_normalise, Hid in H.
+  split; [exact H|]. intros s' H'. rewrite H in H'. injection H' as <-. reflexivity.
+Qed.
+
+Example ex_wf_normalised : wf (normalise (T0 + 3) ex_state).
+Proof.
+  assert (E : normalise (T0 + 3) ex_state =
+    {| c_block_size := 1024; c_hash_size := 2; c_hash := H_SPOOKY2; c_hashseed := c_hashseed ex_state;
+       c_prevhash := H_MURMUR3; c_prevhashseed := c_prevhashseed ex_state;
+       c_maps := [ nth 0 (c_maps ex_state) {| cm_name := []; cm_pos := 0; cm_total := 0; cm_free := 0; cm_uuid := [] |};
+                   nth 2 (c_maps ex_state) {| cm_name := []; cm_pos := 0; cm_total := 0; cm_free := 0; cm_uuid := [] |} ];
+       c_parity := c_parity ex_state; c_disks := c_disks ex_state;
+       c_info := [T0 + 4; T0 + 1; T0 - 80 + 2; 0] |}) by (vm_compute; reflexivity).
+  rewrite E. constructor; try solve_wf.
+  - cbn; lia.
+  - right; left; reflexivity.
+  - right; left; reflexivity.
+  - repeat constructor; cbn; intuition discriminate.
+  - repeat constructor; cbn; intuition discriminate.
+  - repeat constructor; cbn; intuition discriminate.
+  - intros m [<-|[<-|[]]]; cbn; auto.
+  - intros d [<-|[<-|[<-|[]]]]; cbn; intros; auto; discriminate.
+  - intros b [<-|[<-|[<-|[<-|[]]]]]; cbn; intros; try discriminate.
+Qed.
+
+(* ------------------------------------------------------------------------------------------------ *)
+(** * FINDING: a rewrite does not always reproduce the file byte for byte *)
+
+(* Saved at a clock that is behind an info time of the state (the clock stepped backwards since the last sync or
+   scrub), the file stores that time clamped to the clock.  Loaded again, the time is the clamped one rounded down
+   to a multiple of 8 seconds, so a rewrite at the very same clock writes different bytes (and two runs of different
+   future times become one run).  The decoded states of the two files are equal; the bytes are not. *)
+Theorem rewrite_reproduces_refuted :
+  exists now s, wf s /\ 8 <= now /\
+    exists s', decode (conf_of s) (encode now s) = Ok s' /\ encode now s' <> encode now s.
+Proof.
+  exists (T0 + 3), ex_state. split; [exact ex_wf|]. split; [vm_compute; discriminate|].
+  exists (normalise (T0 + 3) ex_state). split; [apply decode_encode_rt; [exact ex_wf|vm_compute; discriminate]|].
+  intros H. apply bytes_eqb_eq in H. vm_compute in H. discriminate.
+Qed.
+
+(* when no info time is ahead of the clock the rewrite reproduces the bytes (instance; tested by the harness on every
+   real content file and on every generated state whose info times are <= now) *)
+Example ex_rewrite_reproduces : encode (T0 + 100) (normalise (T0 + 100) ex_state) = encode (T0 + 100) ex_state.
 Proof. vm_compute. reflexivity. Qed.
